@@ -1,5 +1,5 @@
 (* C14 -- Observe registry: one observer per endpoint per resource, removed only on match. *)
-From CoapV Require Import Base Header Packet Observe Suite14 proofs.P14.
+From CoapV Require Import Base Header Packet Observe Suite14 proofs.P14 proofs.P14b.
 
 (* every reachable state: at most one observer per endpoint on every resource *)
 Theorem C14_invariant : forall ops s, run_ops subject_default ops = Ok s ->
@@ -45,6 +45,22 @@ Print Assumptions C14_deregister_exact.
 Theorem C14_changed_unobserved : forall s p mid conf, lookup_res p (res s) = None -> step s (Changed p mid conf) = Ok s.
 Proof. exact changed_unobserved. Qed.
 Print Assumptions C14_changed_unobserved.
+
+(* the model refines the relational reference of the run-time oracle (Suite14.rstep: one row per (path, endpoint) with
+   token, count, pending id and arrival stamp; a per-path sequence table): on every history inside the domain the
+   states the model prints after each operation are exactly the reference's.  The refinement relation R (P14b.v)
+   keeps: same limit, same sequence table, distinct paths, rows in strictly increasing stamp order, and for every
+   resource its observer list = the rows on that path in stamp order *)
+Theorem C14_model_refines_reference : forall ops e, forallb op_ok ops = true ->
+  rrun rinit ops = (e, false) -> run_hist subject_default ops = e.
+Proof. intros ops e. exact (model_refines_reference ops subject_default rinit e R_init). Qed.
+Print Assumptions C14_model_refines_reference.
+
+(* hence the model passes the suite-140 oracle on EVERY input outside the known-finding class (sequence exhausted):
+   whatever the implementation is compared with has itself been proved to satisfy the oracle *)
+Theorem C14_model_passes_oracle : forall s, known140 s = 0 -> verdict140 s (run140 s) = true.
+Proof. exact model_passes_oracle140. Qed.
+Print Assumptions C14_model_passes_oracle.
 
 Example C14_example :
   match run_ops subject_default [Register 1 [97] [1]; Register 2 [97] [2]; Register 1 [97] [3]; Deregister 2 [97] [9]] with
